@@ -3,6 +3,13 @@ Spec.Hex — reference semantics of the hexadecimal text codec (CPython `binasci
 / `binascii.unhexlify` on ASCII text).  Independent of the code under verification.
 Bytes are `Nat` (< 256 where it matters), text is `List Char`.
 -/
+/- `cs!"abc"` is the character list `['a', 'b', 'c']`, expanded at elaboration time so that no
+   `String` operation has to be evaluated by the kernel -/
+open Lean in
+macro:max "cs!" s:str : term => do
+  let elems ← s.getString.toList.toArray.mapM fun c => `($(Syntax.mkCharLit c))
+  `([$elems,*])
+
 namespace Spec
 
 /-- lower-case hex digit of `n < 16` -/
